@@ -204,7 +204,7 @@ def v1KeyTwin (m : V1.Metas) (nodes : List Json) : Bool :=
     result Equals b (implementation's verdict, model `equals`, hash-free spec `equivB`), and the diff
     is empty exactly when the implementation says `a.Equals(b, meta)`. -/
 def c17Class (m : V1.Metas) (a b : Json) (why : String) : String :=
-  if v1SetMode m && !(v1AliasFree m (subterms a ++ subterms b)) then "kf KF-C04-alias " ++ why
+  if v1SetMode m && !(v1AliasFree m (hashedNodes a ++ hashedNodes b)) then "kf KF-C04-alias " ++ why
   else if V1.hasSet m && v1KeyTwin m (subterms a ++ subterms b) then "kf KF-C01-keytwin " ++ why
   else if V1.hasSet m && (V1.keysOf m).isSome && !(v1KeyedDistinct m (subterms a ++ subterms b)) then
     "ok skipped-setkeys-precondition (two members of one array share an identity): " ++ why
@@ -337,7 +337,7 @@ def oracleC18P (nc : NumCodec) (a b : Json) (implText : Outcome String) (readBac
 def oracleC18M (nc : NumCodec) (m : V1.Metas) (a b : Json) (implText : Outcome String)
     (readBack : Outcome Json) : String :=
   let o := v1ToOpts m
-  let alias := v1SetMode m && !(v1AliasFree m (subterms a ++ subterms b))
+  let alias := v1SetMode m && !(v1AliasFree m (hashedNodes a ++ hashedNodes b))
   match implText with
   | .panic => "fail RenderMerge panicked"
   | .err => if alias then "kf KF-C04-alias RenderMerge returned an error" else "fail RenderMerge returned an error"
